@@ -93,6 +93,19 @@ def FIND_SEQ(l):
     # SEQ: the start can be marked once (restart from head), no other retry is possible, the walk visits <= L nodes + end
     return ['hms_find.0:2', 'hms_find.1:1', 'hms_find.2:1', 'hms_find.3:1', 'hms_find.4:%d' % (l + 2)]
 
+def FIND_INT(l, e):
+    # INT with at most e interfering steps: every retry needs one, the walk visits <= l nodes + end per pass
+    return ['hms_find.0:2', 'hms_find.1:%d' % (e + 1), 'hms_find.2:%d' % (e + 1), 'hms_find.3:%d' % (e + 1), 'hms_find.4:%d' % ((e + 2) * (l + 1) + 1)]
+
+def retry_cut(s, lw):
+    """INT variant of find: the label `retry` is a second cut point (arrival from the function entry = base case, every `goto retry` = step case)"""
+    s = dtors(s, lw)
+    s, n = re.subn(r'\bgoto retry;', '{ XV_LOOP_STEP(RETRY); XV_CUT_END(); }', s)
+    lw.fire('retry_goto', n)
+    s, n = re.subn(r'(?m)^retry:', 'retry: ; XV_LOOP_BASE(RETRY); XV_LOOP_HAVOC(RETRY); XV_LOOP_ASSUME(RETRY);', s)
+    lw.fire('retry_label', n)
+    return s
+
 COMMON = dict(py_pre=guard_rules, py_post=dtors,
               methods={'mark': {'info.cur': 'G_MARK', 'pos.info.cur': 'G_MARK', '*': 'MP_mark'},
                        'get': {'info.cur': 'G_GET', 'info.save': 'G_GET', 'pos.info.cur': 'G_GET', '*': 'MP_get'},
@@ -172,6 +185,32 @@ UNIT = dict(
          c_sig='static void hms_iter_inc(struct iter* self)', guards=['info.cur', 'info.save', 'tmp_guard'], members=['info', 'list'],
          pre_subst=[(r'return \*this;', 'return;', 'ret_this')],
          must_fire={'A_LOAD': 1, 'method:acquire_if_equal': 1, 'method:find': 1, 'guard:default_ctor': 1, 'guard:move_assign': 2, 'subst:ret_this': 1, 'dtor': 1, 'dtor_at_return': 1}),
+    # ---- the same source texts once more, with the retry loops cut by invariants (used by the INT runs only)
+    dict(COMMON, cut_loops={0: 'FINDLOOP'}, py_post=retry_cut, id='find_cut', file=F, sig=r'bool ' + P + r'find\(const Key& key, find_info& info, backoff& backoff\)',
+         c_sig='static _Bool hms_find_cut(struct hms* self, hkey key, struct find_info* info_p, int* backoff_p)', ret_type='_Bool',
+         guards=['info.cur', 'info.save', 'start_guard'], members=['head'],
+         post_subst=[(r'(?<![\w.>])info\b', '(*info_p)', 'info_ref')],
+         must_fire={'A_LOAD': 4, 'A_CASW': 1, 'method:acquire_if_equal': 1, 'method:reclaim': 1, 'guard:copy_ctor': 1, 'guard:copy_assign': 1,
+                    'guard:swap': 1, 'guard:bool': 1, 'guard:is_null': 1, 'guard:backoff_call': 1, 'call:compare': 2, 'dtor': 1, 'dtor_at_return': 2, 'cut_loop': 1, 'retry_goto': 4, 'retry_label': 1,
+                    'deref:info.cur': 4, 'deref:info.save': 1, 'reference': 1}),
+    dict(COMMON, cut_loops={0: 'EMPL'}, id='emplace_or_get_i', file=F, sig=r'auto ' + P + r'emplace_or_get\(Args&&\.\.\. args\) -> std::pair<iterator, bool>',
+         c_sig='static _Bool hms_emplace_or_get_i(struct hms* self, struct iter* ret, hkey args)', ret_type='_Bool',
+         guards=['info.cur', 'info.save', 'new_guard'], members=['head'],
+         pre_subst=[(r'node\* n = new node\(std::forward<Args>\(args\)\.\.\.\);', r'mptr n = N_NEW(args);', 'new_node'),
+                    (r'delete n;', r'N_DELETE(n);', 'delete_node'), RET_IT_INFO],
+         must_fire={'self_call:find': 1, 'subst:new_node': 1, 'subst:delete_node': 1, 'subst:ret_pair': 2, 'A_STORE': 1, 'A_CASW': 1,
+                    'guard:ptr_ctor': 1, 'guard:move_assign': 1, 'guard:backoff_call': 1, 'deref:n': 2, 'dtor': 2, 'cut_loop': 1}),
+    dict(COMMON, cut_loops={0: 'ERASE'}, id='erase_key_i', file=F, sig=r'bool ' + P + r'erase\(const Key& key\)',
+         c_sig='static _Bool hms_erase_i(struct hms* self, hkey key)', ret_type='_Bool', guards=['info.cur', 'info.save'], members=['head'],
+         must_fire={'self_call:find': 2, 'A_CASW': 2, 'method:reclaim': 1, 'guard:to_marked_ptr': 1, 'guard:backoff_call': 1, 'call:marked_ptr': 1, 'dtor': 1, 'dtor_at_return': 2, 'cut_loop': 1}),
+    dict(COMMON, cut_loops={0: 'ERIT'}, id='erase_it_i', file=F, sig=r'auto ' + P + r'erase\(iterator pos\) -> iterator',
+         c_sig='static void hms_erase_it_i(struct hms* self, struct iter* ret, struct iter pos)',
+         guards=['pos.info.cur', 'pos.info.save', 'next_guard'],
+         pre_subst=[(r'compare_exchange_weak\(\s*expected, next_guard,', r'compare_exchange_weak(expected, G_MP(next_guard),', 'guard_to_marked_ptr'),
+                    (r'\bKey key =', 'hkey key =', 'key_type'),
+                    (r'return pos;', r'{ IT_MOVE_CTOR(ret, pos); return; }', 'ret_pos')],
+         must_fire={'self_call:find': 1, 'A_LOAD': 1, 'A_CASW': 2, 'method:reclaim': 1, 'guard:ptr_ctor': 1, 'guard:to_marked_ptr': 1, 'guard:move_assign': 1,
+                    'subst:guard_to_marked_ptr': 1, 'subst:ret_pos': 1, 'call:marked_ptr': 1, 'guard:backoff_call': 1, 'method:reset': 1, 'dtor': 1, 'dtor_at_return': 1, 'cut_loop': 1}),
   ],
   runs=[
     dict(id='find', entry='h_find', cls='shape-complete', defs={'L': 3}, unwind=6, unwindset=FIND_SEQ(3), note='any well-formed list of <= 3 ever-inserted nodes; loops of find unwound completely (unwinding assertions)'),
@@ -183,8 +222,14 @@ UNIT = dict(
     dict(id='erase', entry='h_erase', cls='shape-complete', defs={'L': 3}, unwind=6, unwindset=FIND_SEQ(3) + ['hms_erase.0:1']),
     dict(id='erase_it', entry='h_erase_it', cls='shape-complete', defs={'L': 3}, unwind=6, unwindset=FIND_SEQ(3) + ['hms_erase_it.0:2']),
     dict(id='iter_inc', entry='h_iter_inc', cls='shape-complete', defs={'L': 3}, unwind=6, unwindset=FIND_SEQ(3)),
+    dict(id='find_int', entry='h_find_int', mode='INT', cls='shape-complete', defs={'L': 3}, unwind=6, note='unbounded interference (env.h); for loop and retry label of find cut by invariants FINDLOOP / RETRY; shape L only bounds the list walked by the invariant checker'),
+    dict(id='emplace_int', entry='h_emplace_int', mode='INT', cls='shape-complete', defs={'L': 3}, unwind=6, note='find replaced by its INT contract (proved by find_int); retry loop cut by invariant EMPL'),
+    dict(id='erase_int', entry='h_erase_int', mode='INT', cls='shape-complete', defs={'L': 3}, unwind=6, note='find replaced by its INT contract; retry loop cut by invariant ERASE'),
+    dict(id='erase_it_int', entry='h_erase_it_int', mode='INT', cls='shape-complete', defs={'L': 3}, unwind=6, note='find replaced by its INT contract; mark loop cut by invariant ERIT'),
+    dict(id='iter_inc_int', entry='h_iter_inc_int', mode='INT', cls='shape-complete', defs={'L': 3}, unwind=6, note='find replaced by its INT contract'),
     dict(id='iter_copy', entry='h_iter_copy', cls='shape-complete', defs={'L': 3}, unwind=6, unwindset=FIND_SEQ(3)),
   ],
+  loop_obligation={'RETRY': 'hms.find.commit', 'FINDLOOP': 'hms.find.commit', 'EMPL': 'hms.insert.commit', 'ERASE': 'hms.erase.commit', 'ERIT': 'hms.erase.commit'},
   obligations={},
   canaries=[],
 )
